@@ -1178,3 +1178,413 @@ Proof.
       rewrite E3 in Hc. exact Hc.
 Qed.
 End Merge.
+
+(* ------------------------------------------------------------------ *)
+(* leaves of lists of trees *)
+Definition cls (t : tree) : N * option N := (vnorm (vis t), attrs t).
+Definition states_leaves (c : N * option N) (sts : list (list sseg)) : list leaf :=
+  map (fun p => (fst c, snd c, p)) (map (@rev sseg) (filter valid_state sts)).
+
+Lemma leaves_states t : leaves t = states_leaves (cls t) (den [] t).
+Proof. reflexivity. Qed.
+Lemma states_leaves_app c s1 s2 :
+  states_leaves c (s1 ++ s2) = states_leaves c s1 ++ states_leaves c s2.
+Proof. unfold states_leaves. rewrite filter_app, !map_app. reflexivity. Qed.
+Lemma states_leaves_SameSet c s1 s2 :
+  SameSet s1 s2 -> SameSet (states_leaves c s1) (states_leaves c s2).
+Proof. intros H. unfold states_leaves. apply SameSet_map, SameSet_map, SameSet_filter, H. Qed.
+
+Lemma Leaves_app l1 l2 : Leaves (l1 ++ l2) = Leaves l1 ++ Leaves l2.
+Proof. apply flat_map_app. Qed.
+Lemma Leaves_perm l1 l2 : Permutation l1 l2 -> SameSet (Leaves l1) (Leaves l2).
+Proof. intros H. apply SameSet_flat_map_l, SameSet_perm, H. Qed.
+
+Lemma flat_map_leaves_class c l :
+  (forall f, In f l -> cls f = c) ->
+  flat_map leaves l = states_leaves c (flat_map (den []) l).
+Proof.
+  induction l as [|x r IH]; intros H; [reflexivity|].
+  cbn [flat_map]. rewrite states_leaves_app, IH by (intros f Hf; apply H; right; assumption).
+  rewrite leaves_states, (H x (or_introl eq_refl)). reflexivity.
+Qed.
+
+Lemma flatten_leaves item t :
+  no_empty_kid t = true -> (item = true \/ attrs t = None) ->
+  flat_map leaves (flatten item t) = leaves t.
+Proof.
+  intros Hk Ha. rewrite (flat_map_leaves_class (cls t)).
+  - rewrite flatten_den by assumption. reflexivity.
+  - intros f Hf. destruct (flatten_fields item t f Hf) as [Hv Hat].
+    unfold cls. rewrite Hv. f_equal.
+    destruct Hat as [E|[E1 E2]]; [assumption|].
+    destruct Ha as [Ha|Ha]; congruence.
+Qed.
+
+Lemma nest_trailing_self_leaves t : leaves (nest_trailing_self t) = leaves t.
+Proof.
+  rewrite !leaves_states. destruct (nest_trailing_self_fields t) as [Hv Ha].
+  unfold cls. rewrite Hv, Ha, nest_trailing_self_den. reflexivity.
+Qed.
+
+(* ------------------------------------------------------------------ *)
+(* shapes are preserved by flatten and nest_trailing_self *)
+Lemma alias_free_removelast p : alias_free p = true -> alias_free (removelast p) = true.
+Proof.
+  intros H. destruct p as [|s p]; [reflexivity|].
+  rewrite (removelast_split (length p) (s :: p)), alias_free_app in * by (cbn [length]; lia).
+  rewrite <- (firstn_skipn (length p) (s :: p)), alias_free_app in H.
+  apply andb_true_iff in H. destruct H as [H1 H2]. rewrite H1.
+  assert (E : length (skipn (length p) (s :: p)) = 1) by (rewrite skipn_length; cbn [length]; lia).
+  destruct (skipn (length p) (s :: p)) as [|y [|z r]]; cbn [length] in E; try lia. reflexivity.
+Qed.
+
+Lemma alias_last_splice p f v a c :
+  alias_free p = true -> alias_last f = true ->
+  alias_last (Node (p ++ pre f) (kids f) v a c) = true.
+Proof.
+  destruct f as [pf [L|] vf af cf]; cbn [pre kids alias_last]; intros Hp Hf.
+  - rewrite alias_free_app, Hp. exact Hf.
+  - destruct pf as [|s pf'].
+    + rewrite app_nil_r. apply alias_free_removelast; assumption.
+    + rewrite removelast_app by discriminate. rewrite alias_free_app, Hp. exact Hf.
+Qed.
+
+Lemma shape_inv t : shape t = true -> no_empty_kid t = true /\ alias_last t = true.
+Proof. unfold shape. intros H; apply andb_true_iff in H; exact H. Qed.
+
+Lemma shape_kids p l v a c k :
+  shape (Node p (Some l) v a c) = true -> In k l ->
+  shape k = true /\ path_is_empty k = false /\ alias_free p = true.
+Proof.
+  intros H Hk. apply shape_inv in H. destruct H as [H1 H2].
+  destruct (no_empty_kid_inv _ _ _ _ _ H1 k Hk) as [N1 N2].
+  cbn [alias_last] in H2. apply andb_true_iff in H2. destruct H2 as [A1 A2].
+  rewrite forallb_forall in A2. unfold shape. rewrite N2, (A2 k Hk). auto.
+Qed.
+
+Lemma flatten_shape item t :
+  shape t = true -> Forall (fun f => shape f = true) (flatten item t).
+Proof.
+  induction t as [p v a c|p l v a c IH] using tree_ind'; intros Hs.
+  - cbn [flatten]. destruct (_ || _); repeat constructor; assumption.
+  - cbn [flatten]. destruct (_ || _); [repeat constructor; assumption|].
+    destruct (sole_self l); [repeat constructor; assumption|].
+    apply Forall_forall. intros f Hf. apply in_flat_map in Hf.
+    destruct Hf as [nested [Hn Hf]]. apply in_map_iff in Hf. destruct Hf as [f0 [E Hf0]].
+    subst f. destruct (shape_kids _ _ _ _ _ _ Hs Hn) as [S1 [S2 S3]].
+    rewrite Forall_forall in IH. pose proof (IH nested Hn S1) as HF.
+    rewrite Forall_forall in HF. specialize (HF f0 Hf0). apply shape_inv in HF.
+    destruct HF as [F1 F2]. unfold shape. rewrite alias_last_splice by assumption.
+    rewrite andb_true_r. destruct f0; exact F1.
+Qed.
+
+Lemma removelast_snoc {A} (l : list A) x : removelast (l ++ [x]) = l.
+Proof. apply removelast_last. Qed.
+
+Lemma nest_trailing_self_shape t : shape t = true -> shape (nest_trailing_self t) = true.
+Proof.
+  destruct t as [p [l|] v a c]; cbn [nest_trailing_self]; auto.
+  destruct (rev p) as [|last rq] eqn:Er; auto.
+  destruct last as [n al|al|al|al|]; auto.
+  apply rev_cons_eq in Er. subst p. intros H. apply shape_inv in H. destruct H as [_ H].
+  cbn [alias_last] in H. rewrite removelast_snoc in H.
+  unfold shape. cbn [no_empty_kid alias_last forallb from_path of_path split_path].
+  rewrite H. reflexivity.
+Qed.
+Lemma nest_trailing_self_nonempty t :
+  path_is_empty t = false -> path_is_empty (nest_trailing_self t) = false.
+Proof.
+  destruct t as [p [l|] v a c]; cbn [nest_trailing_self]; auto.
+  destruct (rev p) as [|[n al|al|al|al|] rq]; auto.
+  intros _. destruct (rev rq); reflexivity.
+Qed.
+
+(* ------------------------------------------------------------------ *)
+(* P4: Module / Crate / One *)
+Lemma find_index_spec (f : tree -> bool) l : forall i j,
+  find_index f i l = Some j ->
+  i <= j /\ exists x, nth_error l (j - i) = Some x /\ f x = true.
+Proof.
+  induction l as [|y l IH]; intros i j H; cbn [find_index] in H; [discriminate|].
+  destruct (f y) eqn:E.
+  - inversion H; subst. split; [lia|]. exists y. replace (j - j) with 0 by lia. auto.
+  - apply IH in H. destruct H as [H1 [x [H2 H3]]]. split; [lia|].
+    exists x. replace (j - i) with (S (j - S i)) by lia. auto.
+Qed.
+
+Lemma of_path_fields np v a c : vis (of_path np v a c) = v /\ attrs (of_path np v a c) = a.
+Proof. unfold of_path. destruct (split_path np). auto. Qed.
+
+Section Regroup.
+Variable cmp : tree -> tree -> comparison.
+
+Lemma merge_fields m self other :
+  vis (merge cmp m self other) = vis self /\ attrs (merge cmp m self other) = attrs self.
+Proof.
+  destruct self as [pa ka v a c]. cbn [merge].
+  destruct (merge_rest_with _ _ _ _ _ _); [apply of_path_fields|auto].
+Qed.
+
+Lemma share_prefix_class r f m :
+  share_prefix r f m = true -> vnorm (vis r) = vnorm (vis f) /\ attrs r = None.
+Proof.
+  unfold share_prefix.
+  destruct (path_is_empty r); [discriminate|]. destruct (path_is_empty f); [cbn; discriminate|].
+  cbn [orb]. destruct (attrs r); [cbn; discriminate|]. cbn [is_some orb].
+  destruct (contains_comment r); [cbn; discriminate|]. cbn [orb].
+  unfold same_visibility. destruct (N.eqb_spec (vnorm (vis r)) (vnorm (vis f))); [auto|discriminate].
+Qed.
+
+Lemma merge_leaves m r f :
+  good r = true -> good f = true -> merge_clash m r f = false ->
+  cls r = cls f ->
+  SameSet (leaves (merge cmp m r f)) (leaves r ++ leaves f).
+Proof.
+  intros Hr Hf Hc Hcls.
+  destruct (merge_ok cmp m r f Hr Hf Hc) as [_ Hd].
+  destruct (merge_fields m r f) as [Hv Ha].
+  rewrite !leaves_states. unfold cls at 1. rewrite Hv, Ha. fold (cls r). rewrite <- Hcls.
+  rewrite <- states_leaves_app. apply states_leaves_SameSet, Hd.
+Qed.
+
+Definition ev_tree (e : ev) : tree := match e with EPass t => t | EFlat f => f end.
+Definition ev_ok (e : ev) : Prop :=
+  match e with
+  | EPass t => shape t = true
+  | EFlat f => shape f = true /\ attrs f = None
+  end.
+
+Lemma add_ev_ok m res e :
+  Forall (fun t => shape t = true) res -> ev_ok e -> ev_clash m res e = false ->
+  Forall (fun t => shape t = true) (add_ev cmp m res e) /\
+  SameSet (Leaves (add_ev cmp m res e)) (Leaves res ++ leaves (ev_tree e)).
+Proof.
+  intros Hres He Hc. destruct e as [t|f]; cbn [add_ev ev_tree ev_ok] in *.
+  - split.
+    + apply Forall_app. split; [assumption|repeat constructor; assumption].
+    + rewrite Leaves_app. cbn [Leaves flat_map]. rewrite app_nil_r. apply SameSet_refl.
+  - destruct He as [Hsf Haf]. unfold add_flattened. cbn [ev_clash] in Hc.
+    destruct (find_index _ 0 res) as [i|] eqn:Ef.
+    + apply find_index_spec in Ef. destruct Ef as [_ [r [En Hsh]]]. rewrite Nat.sub_0_r in En.
+      destruct (apply_at_split (fun t => merge cmp m t f) (fun t => merge_clash m t f) res i r En)
+        as [l1 [l2 [E1 [E2 E3]]]].
+      rewrite E3 in Hc. rewrite E2.
+      destruct (share_prefix_nonempty _ _ _ Hsh) as [N1 N2].
+      destruct (share_prefix_class _ _ _ Hsh) as [C1 C2].
+      assert (Hsr : shape r = true).
+      { rewrite Forall_forall in Hres. apply Hres. rewrite E1. apply in_elt. }
+      assert (Hgr : good r = true) by (unfold good; rewrite N1, Hsr; reflexivity).
+      assert (Hgf : good f = true) by (unfold good; rewrite N2, Hsf; reflexivity).
+      assert (Hcls : cls r = cls f) by (unfold cls; rewrite C1, C2, Haf; reflexivity).
+      split.
+      * subst res. apply Forall_app in Hres. destruct Hres as [R1 R2]. inversion R2; subst.
+        apply Forall_app. split; [assumption|]. constructor; [|assumption].
+        destruct (merge_ok cmp m r f Hgr Hgf Hc) as [Hg _].
+        unfold good in Hg. apply andb_true_iff in Hg. tauto.
+      * subst res. rewrite !Leaves_app. cbn [Leaves flat_map]. fold (Leaves l2).
+        pose proof (merge_leaves m r f Hgr Hgf Hc Hcls) as HL.
+        intros z. rewrite !in_app_iff, (HL z), in_app_iff. tauto.
+    + assert (E : leaves (match m with SPModule => nest_trailing_self f | _ => f end) = leaves f)
+        by (destruct m; auto using nest_trailing_self_leaves).
+      split.
+      * apply Forall_app. split; [assumption|]. constructor; [|constructor].
+        destruct m; auto using nest_trailing_self_shape.
+      * rewrite Leaves_app. cbn [Leaves flat_map]. rewrite app_nil_r, E. apply SameSet_refl.
+Qed.
+
+Lemma run_ok m es : forall res,
+  Forall (fun t => shape t = true) res -> Forall ev_ok es -> run_clash cmp m res es = false ->
+  SameSet (Leaves (fold_left (add_ev cmp m) es res))
+          (Leaves res ++ flat_map (fun e => leaves (ev_tree e)) es).
+Proof.
+  induction es as [|e es IH]; intros res Hres Hes Hc.
+  - cbn [fold_left flat_map]. rewrite app_nil_r. apply SameSet_refl.
+  - cbn [fold_left flat_map]. cbn [run_clash] in Hc. apply orb_false_iff in Hc.
+    destruct Hc as [Hc1 Hc2]. inversion Hes as [|? ? He Hes']; subst.
+    destruct (add_ev_ok m res e Hres He Hc1) as [H1 H2].
+    eapply SameSet_trans; [apply (IH _ H1 Hes' Hc2)|].
+    intros z. rewrite !in_app_iff, (H2 z), in_app_iff. tauto.
+Qed.
+
+Lemma fold_left_map' {A B C} (f : A -> C -> A) (g : B -> C) l a :
+  fold_left f (map g l) a = fold_left (fun x y => f x (g y)) l a.
+Proof. revert a; induction l as [|x l IH]; intros a; cbn [map fold_left]; auto. Qed.
+Lemma fold_left_flat_map {A B C} (f : A -> C -> A) (g : B -> list C) l a :
+  fold_left f (flat_map g l) a = fold_left (fun x y => fold_left f (g y) x) l a.
+Proof.
+  revert a; induction l as [|x l IH]; intros a; cbn [flat_map fold_left]; auto.
+  rewrite fold_left_app. apply IH.
+Qed.
+
+Lemma regroup_events m ts :
+  regroup cmp m ts = fold_left (add_ev cmp m) (flat_map (events) ts) [].
+Proof.
+  unfold regroup. rewrite fold_left_flat_map.
+  generalize (@nil tree). induction ts as [|t ts IH]; intros res; cbn [fold_left]; auto.
+  rewrite IH. f_equal. unfold add_tree, events.
+  destruct (contains_comment t || is_some (attrs t)); [reflexivity|].
+  rewrite fold_left_map'. reflexivity.
+Qed.
+
+Lemma events_ok t : shape t = true -> Forall ev_ok (events t).
+Proof.
+  intros Hs. unfold events.
+  destruct (contains_comment t || is_some (attrs t)) eqn:E.
+  - repeat constructor. assumption.
+  - apply orb_false_iff in E. destruct E as [_ E].
+    apply Forall_forall. intros e He. apply in_map_iff in He. destruct He as [f [<- Hf]].
+    cbn [ev_ok]. split.
+    + pose proof (flatten_shape false t Hs) as HF. rewrite Forall_forall in HF. auto.
+    + destruct (flatten_fields false t f Hf) as [_ [H|[_ H]]]; [|assumption].
+      rewrite H. destruct (attrs t); [discriminate|reflexivity].
+Qed.
+
+Lemma events_leaves t :
+  shape t = true -> flat_map (fun e => leaves (ev_tree e)) (events t) = leaves t.
+Proof.
+  intros Hs. unfold events.
+  destruct (contains_comment t || is_some (attrs t)) eqn:E.
+  - cbn [flat_map ev_tree]. apply app_nil_r.
+  - apply orb_false_iff in E. destruct E as [_ E].
+    rewrite flat_map_map. cbn [ev_tree]. apply flatten_leaves.
+    + apply shape_inv in Hs. tauto.
+    + right. destruct (attrs t); [discriminate|reflexivity].
+Qed.
+
+Theorem regroup_leaves m ns :
+  Forall (fun t => shape t = true) ns -> alias_clash cmp m ns = false ->
+  SameSet (Leaves (regroup cmp m ns)) (Leaves ns).
+Proof.
+  intros Hs Hc. rewrite regroup_events.
+  eapply SameSet_trans.
+  - apply run_ok; [constructor| |exact Hc].
+    apply Forall_forall. intros e He. apply in_flat_map in He. destruct He as [t [Ht He]].
+    rewrite Forall_forall in Hs. pose proof (events_ok t (Hs t Ht)) as H.
+    rewrite Forall_forall in H. auto.
+  - cbn [Leaves flat_map app]. rewrite flat_map_flat_map.
+    unfold Leaves. rewrite (flat_map_ext_in _ leaves ns); [apply SameSet_refl|].
+    intros t Ht. rewrite Forall_forall in Hs. apply events_leaves; auto.
+Qed.
+End Regroup.
+
+(* ------------------------------------------------------------------ *)
+(* P4: Item *)
+Lemma oN_eqb_eq a b : oN_eqb a b = true -> a = b.
+Proof.
+  destruct a, b; cbn [oN_eqb]; try discriminate; auto.
+  intros H; apply N.eqb_eq in H; subst; reflexivity.
+Qed.
+
+Lemma tree_eqb_leaves x y :
+  tree_eqb x y = true -> cls x = cls y -> leaves x = leaves y.
+Proof.
+  intros He Hc. rewrite !leaves_states, Hc, (tree_eqb_den x y He). reflexivity.
+Qed.
+
+Definition no_dup_across (l : list tree) : Prop :=
+  forall x y, In x l -> In y l -> tree_eqb x y = true -> cls x = cls y.
+
+Lemma unique_aux_leaves l : forall seen,
+  no_dup_across (seen ++ l) ->
+  SameSet (Leaves seen ++ Leaves (unique_aux seen l)) (Leaves seen ++ Leaves l).
+Proof.
+  induction l as [|x r IH]; intros seen Hnd; cbn [unique_aux]; [apply SameSet_refl|].
+  destruct (existsb (tree_eqb x) seen) eqn:E.
+  - apply existsb_exists in E. destruct E as [y [Hy Hxy]].
+    assert (Hl : leaves x = leaves y).
+    { apply tree_eqb_leaves; [assumption|]. apply Hnd; auto.
+      - apply in_or_app. right. left. reflexivity.
+      - apply in_or_app. left. assumption. }
+    eapply SameSet_trans; [apply IH|].
+    + intros a b Ha Hb. apply Hnd; rewrite in_app_iff in *; cbn [In]; tauto.
+    + intros z. cbn [Leaves flat_map]. fold (Leaves r). rewrite !in_app_iff, Hl.
+      split; [tauto|]. intros [H|[H|H]]; auto.
+      left. unfold Leaves. apply in_flat_map. exists y. auto.
+  - cbn [Leaves flat_map]. fold (Leaves (unique_aux (x :: seen) r)). fold (Leaves r).
+    assert (Hnd' : no_dup_across ((x :: seen) ++ r)).
+    { intros a b Ha Hb. apply Hnd; rewrite in_app_iff in *; cbn [In] in *; tauto. }
+    pose proof (IH (x :: seen) Hnd') as H.
+    cbn [Leaves flat_map] in H. fold (Leaves seen) in H.
+    intros z. specialize (H z). rewrite !in_app_iff in *. tauto.
+Qed.
+
+Lemma dup_across_false same l :
+  dup_across same l = false ->
+  forall x y, In x l -> In y l -> tree_eqb x y = true -> same x y = true.
+Proof.
+  intros H x y Hx Hy He. unfold dup_across in H.
+  destruct (same x y) eqn:Es; auto. exfalso.
+  assert (Ht : existsb (fun x => existsb (fun y => tree_eqb x y && negb (same x y)) l) l = true).
+  { apply existsb_exists. exists x. split; auto. apply existsb_exists. exists y. split; auto.
+    rewrite He, Es. reflexivity. }
+  congruence.
+Qed.
+
+Theorem item_leaves ns :
+  Forall (fun t => shape t = true) ns ->
+  DupAcrossVisibility ns = false -> DupAcrossAttrs ns = false ->
+  SameSet (Leaves (flatten_use_trees ns)) (Leaves ns).
+Proof.
+  intros Hs Hv Ha. unfold flatten_use_trees. fold (item_list ns).
+  assert (Hnd : no_dup_across ([] ++ item_list ns)).
+  { intros x y Hx Hy He. cbn [app] in *. unfold cls. f_equal.
+    - pose proof (dup_across_false _ _ Hv x y Hx Hy He) as H. apply N.eqb_eq in H. exact H.
+    - pose proof (dup_across_false _ _ Ha x y Hx Hy He) as H. apply oN_eqb_eq in H. exact H. }
+  pose proof (unique_aux_leaves (item_list ns) [] Hnd) as H. cbn [Leaves flat_map app] in H.
+  eapply SameSet_trans; [exact H|]. unfold item_list, Leaves.
+  rewrite flat_map_map, flat_map_flat_map.
+  rewrite (flat_map_ext_in _ leaves ns); [apply SameSet_refl|].
+  intros t Ht. rewrite (flat_map_ext_in _ leaves) by (intros; apply nest_trailing_self_leaves).
+  apply flatten_leaves; [|left; reflexivity].
+  rewrite Forall_forall in Hs. pose proof (Hs t Ht) as Hst. apply shape_inv in Hst. tauto.
+Qed.
+
+(* ------------------------------------------------------------------ *)
+(* P5: group_imports, sort, pipeline *)
+Lemma filter3_perm (g : tree -> nat) l :
+  (forall t, g t < 3) ->
+  Permutation (filter (fun t => Nat.eqb (g t) 0) l ++ filter (fun t => Nat.eqb (g t) 1) l
+               ++ filter (fun t => Nat.eqb (g t) 2) l) l.
+Proof.
+  intros Hg. induction l as [|x r IH]; [constructor|].
+  cbn [filter]. specialize (Hg x).
+  destruct (g x) as [|[|[|n]]] eqn:E; try lia; cbn [Nat.eqb].
+  - cbn [app]. constructor. exact IH.
+  - cbn [app]. apply Permutation_sym, Permutation_cons_app, Permutation_sym. exact IH.
+  - rewrite app_assoc. apply Permutation_sym, Permutation_cons_app, Permutation_sym.
+    rewrite <- app_assoc. exact IH.
+Qed.
+Lemma group_of_lt t : group_of t < 3.
+Proof.
+  unfold group_of. destruct (path_head t) as [[[n a|a|a|a|]|l]|]; try lia.
+  destruct (_ || _); lia.
+Qed.
+Lemma group_partition ts : Permutation (concat (group_imports ts)) ts.
+Proof.
+  unfold group_imports. cbn [concat]. rewrite app_nil_r. apply filter3_perm, group_of_lt.
+Qed.
+
+Lemma concat_filter_nonnil {A} (L : list (list A)) :
+  concat (filter (fun l => negb (is_nil l)) L) = concat L.
+Proof.
+  induction L as [|l L IH]; [reflexivity|]. cbn [filter concat].
+  destruct l; cbn [is_nil negb concat app]; rewrite IH; reflexivity.
+Qed.
+Lemma concat_map_sort_perm {A} (c : A -> A -> comparison) (L : list (list A)) :
+  Permutation (concat (map (sort_by c) L)) (concat L).
+Proof.
+  induction L as [|l L IH]; [constructor|]. cbn [map concat].
+  apply Permutation_app; [apply sort_perm|exact IH].
+Qed.
+
+Lemma pipeline_perm cmp g grp reorder ts :
+  Permutation (concat (pipeline cmp g grp reorder ts))
+              (with_granularity cmp g (map (normalize cmp) ts)).
+Proof.
+  unfold pipeline. rewrite concat_filter_nonnil.
+  set (ns := with_granularity cmp g (map (normalize cmp) ts)).
+  assert (H1 : Permutation (concat (if grp then group_imports ns else [ns])) ns).
+  { destruct grp; [apply group_partition|]. cbn [concat]. rewrite app_nil_r. reflexivity. }
+  destruct reorder; [|exact H1].
+  eapply Permutation_trans; [apply concat_map_sort_perm|exact H1].
+Qed.
